@@ -1515,6 +1515,14 @@ impl Core {
 	/// Unlike `make_room_for_write`, this does NOT rotate the WAL before
 	/// flushing. This prevents creating an empty WAL file on clean shutdown.
 	pub async fn close(&self) -> Result<()> {
+		// A store is closed once. The last handle's Drop runs close() as well: after an
+		// explicit close() that second run would sync, clean up the commit log and release
+		// a lock this instance no longer holds - in a directory a new instance may own by
+		// then (its commit-log segments can have lower numbers after a restore).
+		if !self.inner.lockfile.lock()?.is_held() {
+			return Ok(());
+		}
+
 		log::info!("Shutting down LSM tree...");
 
 		// Step 1: Shutdown the commit pipeline to stop accepting new writes
